@@ -996,7 +996,7 @@ class Gen:
             key = rng.choice([k for k in ["hosts", "Endpoints", "peerList"] if k.lower() not in {f["key"].lower() for f in flat_fields(fields)}])
             et = rng.choice([P("string"), P("int"), Ptr(P("string")), Sl(P("int")), St(F("Addr", P("string")), F("W", P("int"), O(opt=True))),
                              Ptr(St(F("Addr", P("string")))), Mp(P("string"))])
-            fields.append(F(key, rng.choice([Sl(et), Mp(Sl(et)), Sl(Sl(et)), Ptr(Sl(et)) if et["k"] != "ptr" else Sl(et)]),
+            fields.append(F(key, rng.choice([Sl(et), Mp(Sl(et)), Sl(Sl(et)), Sl(et)]),
                             rng.choice([None, O(opt=True)])))
             doc = self.obj(fields, False, False)
             doc = lower_doc(doc, True)
@@ -1554,6 +1554,42 @@ def spelling_corpus():
     return cs
 
 
+def number_corpus():
+    """number texts on their way through the three front ends, fixed cases (seeded changes C17-2, C17-5, C17-7):
+    * floats with 9 .. 15 significant digits (nothing float32 could carry) at every kind of float64 position;
+    * floats of magnitude >= 1e21 and < 1e-6 (encoding/json switches to exponent notation with an explicit sign,
+      lang.Repr never does) into float64 / float32 / *float64 FIELDS and elements, exponent spelled e, e+, E+;
+    * float literals whose float64 value is EXACTLY 2^63 / 2^64 / 2^31 / 2^16 / 2^7 (one past the integer kind's
+      range), written with the shortest digits that denote that float64 (so the re-rendering of the YAML / TOML
+      path gives the literal's own digits back and exact decimals suffice), into integer fields / elements:
+      every format rejects them."""
+    cs = []
+    T = [F("f", P("float64")), F("p", Ptr(P("float64")), O(opt=True)), F("l", Sl(P("float64")), O(opt=True)),
+         F("m", Mp(P("float64")), O(opt=True)), F("s", St(F("Inner", P("float64")), F("g", P("float32"), O(opt=True))), O(opt=True))]
+    digits = ["3.14159265358979", "123456.789", "1234567.891", "0.300000000000001", "16777217.5", "0.1", "99.99"]
+    for i, (a, b) in enumerate([(0, 1), (2, 3), (4, 5)]):
+        cs.append({"kind": "load", "tag": "num-digits-%d" % i, "type": T, "env": None, "doc2": None,
+                   "doc": dm(("f", dfl(digits[a])), ("p", dfl(digits[b])), ("l", dl(dfl(digits[a]), dfl(digits[6]), dfl(digits[b]))),
+                             ("m", dm(("k", dfl(digits[b])), ("j", dfl(digits[a])))), ("s", dm(("Inner", dfl(digits[b])), ("g", dfl("0.5")))))})
+    cs.append({"kind": "mfmt", "tag": "num-digits-mfmt", "type": T, "env": None, "doc2": None,
+               "doc": dm(("f", dfl(digits[0])), ("l", dl(dfl(digits[2]), dfl(digits[1]))), ("m", dm(("k", dfl(digits[3])))))})
+    for i, (big, small, f32) in enumerate([("2.5e22", "1.25e-10", "1e30"), ("1e+21", "1e-7", "2.5E+22"), ("6.02E+23", "3e-07", "1e21")]):
+        cs.append({"kind": "load", "tag": "num-magnitude-%d" % i, "type": T, "env": None, "doc2": None,
+                   "doc": dm(("f", dfl(big)), ("p", dfl(small)), ("l", dl(dfl(big), dfl(small))), ("m", dm(("k", dfl(big)))),
+                             ("s", dm(("Inner", dfl(small)), ("g", dfl(f32)))))})
+    cs.append({"kind": "mfmt", "tag": "num-magnitude-mfmt", "type": T, "env": None, "doc2": None,
+               "doc": dm(("f", dfl("2.5e22")), ("p", dfl("1e+21")), ("s", dm(("Inner", dfl("1e-7")), ("g", dfl("1e21")))))})
+    cs.append({"kind": "std", "tag": "num-magnitude-std", "type": [F("f", P("float64")), F("g", P("float32")), F("p", Ptr(P("float64")))],
+               "env": None, "doc2": None, "doc": dm(("f", dfl("2.5e+22")), ("g", dfl("1e21")), ("p", dfl("1e-7")))})
+    edge = [("int64", "9223372036854776000.0"), ("int", "9.223372036854776e18"), ("uint64", "18446744073709552000.0"),
+            ("uint", "1.8446744073709552e19"), ("int32", "2147483648.0"), ("uint16", "65536.0"), ("int8", "128.0"), ("int64", "-9223372036854778000.0")]
+    for i, (k, lit) in enumerate(edge):
+        typ = [F("n", P(k), O(opt=True)), F("l", Sl(P(k)), O(opt=True)), F("m", Mp(P(k)), O(opt=True)), F("p", Ptr(P(k)), O(opt=True))]
+        for pos, v in (("n", dfl(lit)), ("l", dl(di(1), dfl(lit))), ("m", dm(("k", dfl(lit)))), ("p", dfl(lit))):
+            cs.append({"kind": "load", "tag": "num-edge-%s-%d-%s" % (k, i, pos), "env": None, "doc2": None, "type": typ, "doc": dm((pos, v))})
+    return cs
+
+
 # ---------------------------------------------------------------------------- constants read from the source
 
 def regen_constants():
@@ -1725,7 +1761,7 @@ class C17(Property):
                  "doc2": dm(("VALUE", dm(("first", dm(("User", dm(("user", ds("u")))))))), ("l", dl(dm(("User", dm(("User", ds("w")))))))),
                  "env": None},
             ]
-        cs = spelling_corpus() + cs + raw_corpus() + bad_corpus()
+        cs = spelling_corpus() + number_corpus() + cs + raw_corpus() + bad_corpus()
         # aliasing witnesses (seeded change C17-4): two entries, two cells
         for kind, key in (("std", "limits"), ("load", "Limits"), ("mfmt", "Limits")):
             cs.append({"kind": kind, "type": [F(key, Mp(Ptr(P("int")))), F("rates", Mp(Mp(Ptr(P("float64")))), None if kind == "std" else O(opt=True))],
